@@ -1,6 +1,6 @@
 SPECIFICATION Spec
-CONSTANT Deep = TRUE
-CONSTANT MulChecksRange = TRUE
+CONSTANT Deep = FALSE
+CONSTANT MulChecksRange = FALSE
 INVARIANT ImplRefines
 INVARIANT Closed
 INVARIANT Exact
